@@ -75,7 +75,7 @@ func verifC36AllocWrite(s *ShmSegment, batch arrow.RecordBatch) (uint64, int, bo
 func verifC36ReadBatch(s *ShmSegment, offset uint64, length int, schema *arrow.Schema) (arrow.RecordBatch, error) {
 	for _, sl := range verifC36Slots {
 		if sl.off == offset && sl.length == length {
-			return &verifBatch{schema: sl.b.schema, rows: sl.b.rows, tag: sl.b.tag, size: sl.b.size, refs: 1}, nil
+			return verifRegister(&verifBatch{schema: sl.b.schema, rows: sl.b.rows, tag: sl.b.tag, size: sl.b.size, refs: 1}), nil
 		}
 	}
 	return nil, errors.New("shm: no allocation at that offset")
@@ -121,6 +121,7 @@ type verifC36Run struct {
 	handler   int
 	pointers  int // pointer batches received by the client
 	resolveOK bool
+	leaked, unbalanced, overRelease int
 }
 
 func verifC36SizeOf(tag int) int64 {
@@ -166,6 +167,7 @@ func verifC36Serve(calls []verifC36Call, shm bool) *verifC36Run {
 				reqKeys = append(append([]string{}, keys...), MetaShmOffset, MetaShmLength)
 				reqVals = append(append([]string{}, vals...), strconv.FormatUint(off, 10), strconv.Itoa(n))
 				reqBatch = verifNewBatch(verifDataSchema, 0, 0, nil, nil)
+				params.Release() // the client wrote it into the segment and is done with its own copy
 				engaged = true
 			}
 		}
@@ -218,13 +220,17 @@ func verifC36Serve(calls []verifC36Call, shm bool) *verifC36Run {
 				n++
 			}
 			for i := 0; i < n; i++ {
-				in := verifNewBatch(verifDataSchema, 1, 10+i, nil, nil)
-				in.size = verifC36Large
+				var in *verifBatch
 				if c.method == "p" {
 					in = verifNewBatch(verifEmptySchema, 0, 0, nil, nil)
-				} else if shm && engaged && c.ptrInputs[i] {
-					if off, ln, ok, _ := verifC36AllocWrite(nil, in); ok {
-						in = verifNewBatch(verifDataSchema, 0, 0, []string{MetaShmOffset, MetaShmLength}, []string{strconv.FormatUint(off, 10), strconv.Itoa(ln)})
+				} else {
+					in = verifNewBatch(verifDataSchema, 1, 10+i, nil, nil)
+					in.size = verifC36Large
+					if shm && engaged && c.ptrInputs[i] {
+						if off, ln, ok, _ := verifC36AllocWrite(nil, in); ok {
+							in.Release() // written into the segment; the client's own copy is done with
+							in = verifNewBatch(verifDataSchema, 0, 0, []string{MetaShmOffset, MetaShmLength}, []string{strconv.FormatUint(off, 10), strconv.Itoa(ln)})
+						}
 					}
 				}
 				bs = append(bs, in)
@@ -255,6 +261,7 @@ func verifC36Serve(calls []verifC36Call, shm bool) *verifC36Run {
 					} else {
 						vb := rb.(*verifBatch)
 						d.rows, d.tag = vb.rows, vb.tag
+						vb.Release() // the client is done with its own copy
 						if verifC36Free(nil, off) != nil {
 							run.resolveOK = false
 						}
@@ -267,6 +274,8 @@ func verifC36Serve(calls []verifC36Call, shm bool) *verifC36Run {
 		seenStreams = len(out)
 	}
 	shmConn.close()
+	run.leaked, run.unbalanced = verifLedger()
+	run.overRelease = verifOverRelease
 	run.params = verifParamsTags
 	run.handler = verifHCalls
 	verifPipeBatchSize = nil
@@ -343,6 +352,8 @@ func verifH_C36_same_results_and_no_leak() {
 	}
 	verifAssert(len(verifC36Slots) == 0 && verifC36Used == 0, "once the client has released every pointer it received the allocation table is empty")
 	verifAssert(verifC36BadFree == 0, "nothing is freed twice")
+	verifAssert(plain.leaked == 0 && plain.unbalanced == 0 && plain.overRelease == 0, "the plain session releases every record batch it made, once")
+	verifAssert(withShm.leaked == 0 && withShm.unbalanced == 0 && withShm.overRelease == 0, "the shared-memory session releases every record batch it made — pointer batches, resolved batches and the originals — once")
 	verifAssert(verifC36Closed == verifC36Attached, "every attached segment is closed when the connection ends")
 	if withShm.pointers > 0 {
 		verifReach("pointers-used")
